@@ -15,10 +15,13 @@ func Calibrate(ind *reg.Indicator, cfg reg.Cfg, class string, n int, r *gen.Rand
 	inst := ind.New(cfg)
 	w := inst.Idle
 	fmt.Fprintf(&sb, "%-28s cfg=%v w=%d declared=%v: ", ind.Name, cfg, w, inst.Declared)
-	bars := gen.Bars(r, class, n)
+	var bars []gen.Bar
 	var numeric []float64
 	if class == gen.ZeroNeg {
+		bars = gen.Bars(r, gen.Walk, n)
 		numeric = gen.Numeric(r, class, n)
+	} else {
+		bars = gen.Bars(r, class, n)
 	}
 	inputs := indInputs(ind, bars, numeric)
 	actual := runInd(inst, inputs)
